@@ -253,7 +253,8 @@ fn content_len(n: &RNode) -> usize {
 fn size_field(sz: RSz, clen: usize) -> Vec<u8> {
     match sz {
         RSz::Min => enc_vint(clen as u64, min_size_width(clen as u64).unwrap()),
-        RSz::Width(w) => enc_vint(clen as u64, w),
+        // an explicit width too small for the content is widened (the encoder only emits valid streams)
+        RSz::Width(w) => enc_vint(clen as u64, w.max(min_size_width(clen as u64).unwrap())),
         RSz::Unknown(w) => enc_unknown_size(w),
         RSz::Lie(w, v) => enc_vint(v, w),
     }
